@@ -13,6 +13,8 @@ structure St where
   stdin : List String := []
   looks : List (String × String) := []
   inherit : Option Nat := none
+  layout : String := "first"
+  hookEnv : List String := []
 
 def St.env (st : St) : Env :=
   { defined := fun n => st.defined.contains n
@@ -89,7 +91,8 @@ def bit? : Option String → Option Bool
 
 def step (st : St) (toks : List String) : St × String :=
   match toks with
-  | ["def", names] => ({ st with defined := strList names }, "ok")
+  -- `def` opens the description of one hook run (a case may describe several): the context list starts empty
+  | ["def", names] => ({ st with defined := strList names, ctxs := [] }, "ok")
   | ["failidx", l] =>
     match natList? l with
     | some l => ({ st with failIdx := l }, "ok")
@@ -118,8 +121,15 @@ def step (st : St) (toks : List String) : St × String :=
     else match v.toNat? with
       | some n => ({ st with inherit := some n }, "ok")
       | none => (st, "bad-op")
+  | ["layout", l] =>
+    if (layoutSegs l []).isSome then ({ st with layout := l }, "ok") else (st, "bad-op")
+  | ["env", l] =>
+    -- what the hook process inherits from the operator's environment: the dispatch does not depend on it
+    ({ st with hookEnv := strList l }, "ok")
   | "run" :: args =>
-    let (r, seen) := hookRunIO st.env args st.stdin st.ctxs
+    -- the script's own definitions in the order it makes them: __config__, the helper, the handlers
+    let segs := (layoutSegs st.layout ("__config__" :: "__verif_handler" :: st.defined)).getD []
+    let (r, seen) := hookRunL segs st.env args st.stdin st.ctxs
     let uses := r.log.map fun (_, h) => st.env.reads h
     -- a position beyond the array is no context (`jq` prints null)
     let inArr : Option Nat → Option Nat := fun o => o.bind fun n => if n < st.ctxs.length then some n else none
